@@ -278,7 +278,7 @@ def run(prop, tier, cases, run_case, rule, owner, replay=None, nontrivial=None, 
     return rep.finish({
         "evaluations": n_ev,
         "distinct_nontrivial": len(nontriv),
-        "traces_validated_against_impl": len(traces) + rep.cov.get("algorithm_conformance", {}).get("recorded_runs", 0),
+        "traces_validated_against_impl": len(traces) + rep.cov.get("algorithm_conformance", {}).get("recorded_runs", 0) + rep.cov.get("traces_validated_against_impl", 0),   # + states replayed by the generator tiers
         "rule": rule,
         "verdict_counts": counts,
         "exhaustive": False,
